@@ -243,6 +243,8 @@ PROBES_C07 += [
     ("setter-throw-through-Object.assign", "var r; try { Object.assign({set x(v){ throw new RangeError('boom') }}, {x: 1}) } catch (e) { r = e.name + e.message } r", "RangeErrorboom"),
     ("eval-throw-in-callback", "var r; try { [1].map(function(){ return eval('throw 5') }) } catch (e) { r = e } r", 5),
     ("eval-throw-runs-finally-once", "var r = []; try { try { eval('throw 1') } finally { r.push('f') } } catch (e) { r.push(e) } r.join()", "f,1"),
+    ("thrown-object-is-not-modified", "var o = {a: 1}; var ks; try { throw o } catch (e) { ks = Object.keys(e).join() } ks + '|' + JSON.stringify(o) + '|' + (function () { try { [1].forEach(function () { throw o }) } catch (e) { return Object.keys(e).join() } })()", 'a|{"a":1}|a'),
+    ("errors-still-get-their-location", "var r; try { null.x } catch (e) { r = typeof e.lineNumber } var s; try { throw new RangeError('q') } catch (e) { s = typeof e.lineNumber + typeof e.columnNumber } r + s", "numbernumbernumber"),
     ("uncaught-names-the-error", lambda Context: _uncaught(Context, "throw new TypeError('tt')"), "TypeError: tt"),
     ("uncaught-array", lambda Context: _uncaught(Context, "throw [1, 2]"), "Error: 1,2"),
     ("uncaught-from-eval", lambda Context: _uncaught(Context, "eval(\"throw new RangeError('r')\")"), "RangeError: r"),
